@@ -253,23 +253,31 @@ func (c *connectClient) NewConn(
 	spec Spec,
 	header http.Header,
 ) StreamingClientConn {
-	// The header map may belong to a Request that was sent before: a timeout
-	// left over from that call must not outlive its deadline.
-	delete(header, connectHeaderTimeout)
-	if deadline, ok := ctx.Deadline(); ok {
-		millis := int64(time.Until(deadline) / time.Millisecond)
-		if millis < 0 {
-			millis = 0
+	setTimeout := func() {
+		// The header map may belong to a Request that was sent before: a timeout
+		// left over from that call must not outlive its deadline.
+		delete(header, connectHeaderTimeout)
+		if deadline, ok := ctx.Deadline(); ok {
+			millis := int64(time.Until(deadline) / time.Millisecond)
+			if millis < 0 {
+				millis = 0
+			}
+			// Less than a millisecond left is sent as 0 - the handler should give
+			// up at once - and not as no timeout at all, which would let it run
+			// unbounded.
+			encoded := strconv.FormatInt(millis, 10 /* base */)
+			if len(encoded) <= 10 {
+				header[connectHeaderTimeout] = []string{encoded}
+			} // else effectively unbounded
 		}
-		// Less than a millisecond left is sent as 0 - the handler should give up
-		// at once - and not as no timeout at all, which would let it run
-		// unbounded.
-		encoded := strconv.FormatInt(millis, 10 /* base */)
-		if len(encoded) <= 10 {
-			header[connectHeaderTimeout] = []string{encoded}
-		} // else effectively unbounded
 	}
+	// Interceptors may look at the header now...
+	setTimeout()
 	duplexCall := newDuplexHTTPCall(ctx, c.HTTPClient, c.URL, spec, header)
+	// ...but a stream may sit idle before its first Send: what goes on the wire
+	// is the time remaining then, or the server's deadline would be later than
+	// the caller's.
+	duplexCall.SetBeforeRequest(setTimeout)
 	var conn StreamingClientConn
 	if spec.StreamType == StreamTypeUnary {
 		unaryConn := &connectUnaryClientConn{
